@@ -63,6 +63,7 @@ _RULES = {
     "IDENT-RANGE": rules_more.rule_ident_range,
     "RECURSION-BOUND": rules_struct.rule_recursion_bound,
     "POSITION-TOKEN": rules_more.rule_position_token,
+    "ERR-FRAME": rules_struct.rule_err_frame,
 }
 
 _cache = {}
